@@ -212,15 +212,25 @@ pub fn c19b_probes(ctx: &Ctx) -> Vec<Probe> {
 
 // ---- C05(b): exactly one shared wire name between two parts must be a compile error --------
 
-pub fn c05b_probes(ctx: &Ctx) -> Vec<Probe> {
+/// A program whose parts share no wire name (`disjoint`) and an edit of it in which exactly two
+/// parts expose one shared wire name for one kind (`overlap`).
+pub struct OverlapBase {
+    pub index: usize,
+    pub disjoint: Program,
+    pub overlap: Program,
+    pub cls: &'static str,
+    pub pair: &'static str,
+    pub name_a: String,
+    pub name_b: String,
+    pub kind: Kind,
+}
+
+pub fn overlap_bases(seed: u64, n: usize, prefer_ifaces: bool) -> Vec<OverlapBase> {
     let mut out = vec![];
-    let opts = RenderOpts { sv: "sylvia".into(), glue: false };
-    let n = if ctx.quick() { 10 } else { 60 };
     let gopts = GenOpts { allow_attrs: false, ..GenOpts::default() };
-    let tapes = crate::draw_tapes(ctx.seed ^ 0x05b, n * 3, 600);
-    let mut made = 0;
+    let tapes = crate::draw_tapes(seed, n * if prefer_ifaces { 8 } else { 3 }, 600);
     for (i, tape) in tapes.into_iter().enumerate() {
-        if made >= n {
+        if out.len() >= n {
             break;
         }
         let mut t = svmodel::tape::Tape::new(tape.iter().rev().cloned().collect());
@@ -230,19 +240,27 @@ pub fn c05b_probes(ctx: &Ctx) -> Vec<Probe> {
         }
         // choose two distinct parts and a kind; make part B carry a method whose wire name equals one of part A
         let parts = p.parts();
-        let a = t.pick(parts);
-        let mut b = t.pick(parts);
+        let two_ifaces = prefer_ifaces && t.chance(75);
+        if two_ifaces && p.interfaces.len() < 2 {
+            continue;
+        }
+        let lo = if two_ifaces { 1 } else { 0 };
+        let a = lo + t.pick(parts - lo);
+        let mut b = lo + t.pick(parts - lo);
         if a == b {
-            b = (b + 1) % parts;
+            b = lo + (b - lo + 1) % (parts - lo);
         }
         let kind = Kind::ENUMS[t.pick(3)];
         let mut q = p.clone();
         let near = t.chance(30);
+        // fresh shared names at different places of the alphabet (the overlap scan walks sorted lists)
+        const FRESH: &[&str] = &["vp_shared1", "a0_shared1", "m_shared1", "zz_shared1"];
+        let fresh = FRESH[t.pick(FRESH.len())];
         let (name_a, name_b) = {
             let src = p.methods_of(a).iter().find(|m| m.kind() == Some(kind)).map(|m| m.name.clone());
             match src {
-                Some(n) if !near => (n.clone(), n),
-                _ => ("vp_shared1".to_string(), if near { "vp_shared_1".to_string() } else { "vp_shared1".to_string() }),
+                Some(n) if !near && !t.chance(25) => (n.clone(), n),
+                _ => (fresh.to_string(), if near { fresh.replace("shared1", "shared_1") } else { fresh.to_string() }),
             }
         };
         // a method of that name but another kind in the same part cannot coexist (one fn name per
@@ -268,11 +286,22 @@ pub fn c05b_probes(ctx: &Ctx) -> Vec<Probe> {
         let first = t.chance(50);
         ensure(&mut q, a, &name_a, first);
         ensure(&mut q, b, &name_b, !first);
-        made += 1;
         let cls = if near { "near-collision(foo1/foo_1)" } else { "same-name" };
         let pair = if a == 0 || b == 0 { "contract/interface" } else { "interface/interface" };
+        out.push(OverlapBase { index: i, disjoint: p, overlap: q, cls, pair, name_a, name_b, kind });
+    }
+    out
+}
+
+pub fn c05b_probes(ctx: &Ctx) -> Vec<Probe> {
+    let mut out = vec![];
+    let opts = RenderOpts { sv: "sylvia".into(), glue: false };
+    let n = if ctx.quick() { 10 } else { 60 };
+    for b in overlap_bases(ctx.seed ^ 0x05b, n, false) {
+        let (i, cls, pair, kind) = (b.index, b.cls, b.pair, b.kind);
+        let (name_a, name_b) = (&b.name_a, &b.name_b);
         out.push(Probe {
-            unit: Unit { name: format!("overlap_{i}"), source: unit_source("sylvia", &render::render_source(&q, &opts)) },
+            unit: Unit { name: format!("overlap_{i}"), source: unit_source("sylvia", &render::render_source(&b.overlap, &opts)) },
             want: Want::FailsWith("Message overlaps between interface and contract impl"),
             key: format!("overlap-accepted:{cls}:{pair}"),
             what: format!("two parts expose `{name_a}` / `{name_b}` as {} message under the same wire name", kind.attr()),
@@ -281,7 +310,7 @@ pub fn c05b_probes(ctx: &Ctx) -> Vec<Probe> {
             item_line: None,
         });
         out.push(Probe {
-            unit: Unit { name: format!("disjoint_{i}"), source: unit_source("sylvia", &render::render_source(&p, &opts)) },
+            unit: Unit { name: format!("disjoint_{i}"), source: unit_source("sylvia", &render::render_source(&b.disjoint, &opts)) },
             want: Want::Compiles,
             key: "disjoint-rejected".into(),
             what: "a program whose parts share no wire name does not compile".into(),
@@ -291,6 +320,111 @@ pub fn c05b_probes(ctx: &Ctx) -> Vec<Probe> {
         });
     }
     out
+}
+
+// ---- C14(b): acceptance by rustc does not depend on declaration order ------------------------
+
+/// Units that are the same program up to declaration order; all must have the same
+/// accept / reject status.
+pub struct Group {
+    pub name: String,
+    pub class: String,
+    pub units: Vec<(String, Unit)>,
+}
+
+fn permuted(p: &Program, rev_ifaces: bool, rev_methods: bool) -> Program {
+    let mut q = p.clone();
+    if rev_ifaces {
+        q.interfaces.reverse();
+    }
+    if rev_methods {
+        q.contract.methods.reverse();
+        for i in q.interfaces.iter_mut() {
+            i.methods.reverse();
+        }
+    }
+    q
+}
+
+pub fn c14b_groups(ctx: &Ctx) -> Vec<Group> {
+    let opts = RenderOpts { sv: "sylvia".into(), glue: false };
+    let n = if ctx.quick() { 16 } else { 60 };
+    let mut out = vec![];
+    for (gi, b) in overlap_bases(ctx.seed ^ 0x14b, n, true).into_iter().enumerate() {
+        // overlapping programs (whether the overlap is noticed must not depend on the order) and,
+        // for every fourth base, the disjoint twin
+        let mut bases = vec![(format!("overlap:{}:{}", b.cls, b.pair), b.overlap.clone())];
+        if gi % 4 == 0 {
+            bases.push(("disjoint".to_string(), b.disjoint.clone()));
+        }
+        for (class, prog) in bases {
+            let tag = if class == "disjoint" { "d" } else { "o" };
+            let mut units = vec![];
+            for (label, ri, rm) in [("declared", false, false), ("interfaces-reversed", true, false), ("methods-reversed", false, true), ("both-reversed", true, true)] {
+                if ri && prog.interfaces.len() < 2 {
+                    continue;
+                }
+                let q = permuted(&prog, ri, rm);
+                units.push((label.to_string(), Unit { name: format!("g{}{tag}_{}", b.index, label.replace('-', "_")), source: unit_source("sylvia", &render::render_source(&q, &opts)) }));
+            }
+            out.push(Group { name: format!("g{}{tag}", b.index), class, units });
+        }
+    }
+    out
+}
+
+pub fn run_groups(ctx: &Ctx, pkg: &str, groups: Vec<Group>, out: &mut Outcome) {
+    let groups: Vec<Group> = if let Some(path) = &ctx.replay {
+        let v: Value = serde_json::from_str(&std::fs::read_to_string(path).unwrap_or_default()).unwrap_or(Value::Null);
+        if v["engine"] != "E3G" {
+            return;
+        }
+        let units = v["units"].as_array().cloned().unwrap_or_default();
+        vec![Group {
+            name: "replay".into(),
+            class: v["class"].as_str().unwrap_or("").to_string(),
+            units: units.iter().map(|u| (u["variant"].as_str().unwrap_or("").to_string(), Unit { name: u["name"].as_str().unwrap_or("u").to_string(), source: u["source"].as_str().unwrap_or("").to_string() })).collect(),
+        }]
+    } else {
+        groups
+    };
+    if groups.is_empty() {
+        return;
+    }
+    let units: Vec<Unit> = groups.iter().flat_map(|g| g.units.iter().map(|(_, u)| Unit { name: u.name.clone(), source: u.source.clone() })).collect();
+    let res = match check_units(pkg, &units, None) {
+        Ok(r) => r,
+        Err(e) => {
+            out.inconclusive = Some(e);
+            return;
+        }
+    };
+    let mut classes: std::collections::BTreeMap<String, u64> = serde_json::from_value(out.classes.clone()).unwrap_or_default();
+    for g in &groups {
+        out.evaluations += g.units.len() as u64;
+        *classes.entry(format!("order-group:{}", g.class)).or_insert(0) += 1;
+        if g.units.len() >= 2 {
+            out.nontrivial += 1;
+        }
+        let status: Vec<(String, bool)> = g.units.iter().map(|(l, u)| (l.clone(), res[&u.name].ok)).collect();
+        if out.samples.len() < 8 {
+            out.samples.push(json!({"group": g.name, "class": g.class, "orders": status.iter().map(|(l, ok)| format!("{l}:{}", if *ok { "accepted" } else { "rejected" })).collect::<Vec<_>>() }));
+        }
+        if status.iter().any(|(_, ok)| *ok != status[0].1) {
+            let key = format!("acceptance-order-dependent:{}", g.class.split(':').next().unwrap_or(""));
+            if out.violations.iter().any(|(k, _, _)| *k == key) {
+                continue;
+            }
+            let v = json!({"property": ctx.prop, "engine": "E3G", "key": key, "class": g.class,
+                "what": "the same program is accepted in one declaration order and rejected in another",
+                "detail": {"status": status.iter().map(|(l, ok)| json!({"order": l, "accepted": ok})).collect::<Vec<_>>() },
+                "units": g.units.iter().map(|(l, u)| json!({"variant": l, "name": u.name, "source": u.source})).collect::<Vec<_>>(),
+                "seed": ctx.seed, "tier": ctx.tier});
+            let path = ctx.save_replay(&v);
+            out.violations.push((key, "the same program is accepted in one declaration order and rejected in another".into(), path));
+        }
+    }
+    out.classes = json!(classes);
 }
 
 // ---- C18(b): rustc-level diagnostics of the catalogue ---------------------------------------
